@@ -71,6 +71,10 @@ class _BlackbirdExprPrinter(StrPrinter):
 
         return res
 
+    def _print_ImaginaryUnit(self, expr):
+        # 'I' is not part of the Blackbird language
+        return "1j"
+
 
 def sympy_to_blackbird(expr):
     """Converts a SymPy expression to a string containing the equivalent Blackbird expression.
